@@ -274,7 +274,10 @@ func (e *SpecEnv) evalLoc(m ast.Expr) []Loc {
 		}
 		sfail("modifies: %s is not a location", n.Name)
 	case *ast.SelectorExpr:
-		base := e.eval(n.X)
+		base, isGlobal := e.globalStructRef(n.X)
+		if !isGlobal {
+			base = e.eval(n.X)
+		}
 		if base.K != KRef {
 			sfail("modifies: base of %s is not a pointer", exprString(m))
 		}
